@@ -2772,8 +2772,16 @@ impl LineBuf {
 					match motion {
 						Motion::BackwardChar => target.sub(1),
 						Motion::ForwardChar => {
-							if !self.is_selecting() && self.cursor.exclusive && self.grapheme_at(target.ret_add(1)) == Some("\n") {
-								return MotionKind::Null
+							if !self.is_selecting() && self.cursor.exclusive {
+								// Normal mode: go as far as the line allows. The cursor stops on the last
+								// character; an operator ('x', 'dl', 's') reaches the terminator so that
+								// the last character is included.
+								if self.grapheme_at(target.get()) == Some("\n") {
+									break
+								}
+								if verb.is_none() && self.grapheme_at(target.ret_add(1)) == Some("\n") {
+									break
+								}
 							}
 							if self.is_selecting() && self.grapheme_at(target.get()) == Some("\n") {
 								break
@@ -2786,6 +2794,10 @@ impl LineBuf {
 					if self.grapheme_at(target.get()) == Some("\n") {
 						return MotionKind::Null
 					}
+				}
+				if matches!(motion, Motion::ForwardChar) && !self.is_selecting() && self.cursor.exclusive && target.get() == self.cursor.get() {
+					// could not move at all
+					return MotionKind::Null
 				}
 				MotionKind::On(target.get())
 			}
